@@ -45,7 +45,7 @@ class PpGen:
     def arg(self, defined, depth=0):
         r = self.r
         k = r.weighted([('num', 4), ('ident', 3), ('obj', 3 if any(v is None for v in defined.values()) else 0), ('call', 2 if depth < 2 and any(v for v in defined.values()) else 0),
-                        ('empty', 1), ('brackets', 3), ('string', 3), ('near', 2), ('spaced', 2), ('expr', 2)])
+                        ('empty', 1), ('brackets', 3), ('string', 3), ('near', 2), ('spaced', 2), ('expr', 2), ('adjacent', 2), ('multiline', 1), ('comment', 1)])
         self.note('arg:' + k)
         if k == 'num':
             return r.choice(['1', '22', '0.5'])
@@ -65,7 +65,19 @@ class PpGen:
             return r.choice(self.near_names(r.choice(list(defined) or ['A'])))
         if k == 'spaced':
             return ' ' + r.choice(IDENTS) + ' '
+        if k == 'adjacent':
+            return self.adjacent_arg(defined)
+        if k == 'multiline':
+            return r.choice(['\n  1\n', '[1,\n 2]', 'x\n'])
+        if k == 'comment':
+            return r.choice(['1 /* c, d) */', '2 // e, f)\n', '/* g */ 3'])
         return r.choice(['1 + 2', 'x select 0', '_v # 1', 'a*b'])
+
+    def adjacent_arg(self, defined):
+        """a word directly beside a string inside an argument"""
+        r = self.r
+        n = r.choice([m for m, v in defined.items() if v is None] or ['hint'])
+        return r.choice(['%s"r"', '"l"%s', '"l"%s"r"', 'hint"x"', '%s"r";x', 'x %s"r"']).replace('%s', n)
 
     def call(self, defined, depth=0):
         r = self.r
@@ -98,7 +110,7 @@ class PpGen:
         for _ in range(budget):
             k = r.weighted([('define', 4), ('fdefine', 4), ('use', 6 if defined else 0), ('fuse', 6 if any(v for v in defined.values()) else 0),
                             ('cond', 3 if depth < 2 else 0), ('include', 1 if not in_include and depth == 0 else 0), ('comment', 3), ('string', 3), ('undef', 1 if defined else 0),
-                            ('multiline', 1), ('plain', 4), ('near', 3 if defined else 0), ('marker', 2), ('adjacent', 2 if defined else 0), ('hash', 1)])
+                            ('multiline', 1), ('plain', 4), ('near', 3 if defined else 0), ('marker', 2), ('adjacent', 2 if defined else 0), ('hash', 1), ('cba', 1 if depth == 0 else 0), ('linestart', 1)])
             self.note('item:' + k + ('' if active else ':inactive'))
             if k == 'define':
                 n = r.choice(NAMES)
@@ -184,10 +196,38 @@ class PpGen:
                 n = r.choice(list(defined))
                 t = n if defined[n] is None else self.call_of(n, defined)
                 out.append(r.choice(['"l"%s"r"', '%s"r"', '"l"%s', '[%s]', '-%s', '%s-1', '{%s}', '!%s', '%s;', '(%s)']) % t)
+            elif k == 'cba':
+                out += self.cba(defined, active)
+            elif k == 'linestart':
+                # what may stand in front of a '#' that is not a directive
+                out.append(r.choice(['"s" # 0', 'x # 1', '[1,2] # 0', '"a" #b']))
             elif k == 'hash':
                 out.append(r.choice(['x = y # 1;', '_a = [1,2] # 0;', 'a #b', '  # 1']) if False else r.choice(['x = y # 1;', '_a = [1,2] # 0;', 'a #b']))
             else:
                 out.append(' '.join(self.plain_token() for _ in range(1 + r.below(6))))
+        return out
+
+    CBA = [('QUOTE', 1, '#var1', ('var1',)), ('DOUBLES', 2, 'var1##_##var2', ('var1', 'var2')), ('TRIPLES', 3, 'var1##_##var2##_##var3', ('var1', 'var2', 'var3')),
+           ('ADDON', None, 'DOUBLES(PREFIX,COMPONENT)', ()), ('GVAR', 1, 'DOUBLES(ADDON,var1)', ('var1',)), ('QGVAR', 1, 'QUOTE(GVAR(var1))', ('var1',)),
+           ('FUNC', 1, 'TRIPLES(ADDON,fnc,var1)', ('var1',)), ('QFUNC', 1, 'QUOTE(FUNC(var1))', ('var1',)), ('PATHTOF', 1, '\\MAINPREFIX\\PREFIX\\COMPONENT\\var1', ('var1',)),
+           ('QPATHTOF', 1, 'QUOTE(PATHTOF(var1))', ('var1',)), ('ARR_2', 2, 'var1, var2', ('var1', 'var2')), ('EGVAR', 2, 'TRIPLES(PREFIX,var1,var2)', ('var1', 'var2')),
+           ('PREP', 1, 'FUNC(var1) = compile preprocessFileLineNumbers QPATHTOF(functions\\DOUBLES(fnc,var1).sqf)', ('var1',))]
+
+    def cba(self, defined, active):
+        """the macro layer of CBA-style mods and uses of it"""
+        r = self.r
+        out = ['#define PREFIX %s' % r.choice(['ace', 'cba', 'x']), '#define COMPONENT %s' % r.choice(['main', 'common']), '#define MAINPREFIX z']
+        if active:
+            defined['PREFIX'] = None; defined['COMPONENT'] = None; defined['MAINPREFIX'] = None
+        for n, ar, body, ps in self.CBA:
+            out.append('#define %s%s %s' % (n, '(%s)' % ','.join(ps) if ar is not None else '', body))
+            if active:
+                defined[n] = ar
+        for _ in range(1 + r.below(5)):
+            n, ar, _b, _p = r.choice(self.CBA)
+            args = [r.choice(['foo', 'bar', 'init', 'x y', '1', 'enabled', '"s"', 'QUOTE(a)', 'GVAR(z)', 'ui\\icon.paa']) for _ in range(ar or 0)]
+            use = n if ar is None else '%s(%s)' % (n, ','.join(args))
+            out.append(r.choice(['%s;', 'x = %s;', '[%s] call %s;' % ('%s', r.choice(['FUNC(go)', 'foo'])), 'class %s {};', '%s']) % use)
         return out
 
     def call_of(self, n, defined):
